@@ -18,18 +18,24 @@ CLAIM = dict(
     text=("Theorems (coq/props/C15.v, closed under the global context) about an executable model of the module system "
           "(ModuleGraph, AllocateModule, evalImportStmt, execAnotherModule, CheckDepedency, the three-colour DFS, symbol stacks, "
           "FindElementWithModule, the LoadFile name->path mapping): the DFS answers true exactly when the recorded graph has a cycle "
-          "(all finite digraphs, any map iteration order, fuel proved sufficient); every module body is entered at most once and "
-          "strictly before its importer's own statements; an import declares exactly the exported (or the listed and exported) "
-          "names as constants carrying their home module, assignment to them is error 44; a missing module is error 60 and a "
-          "missing library error 64; a run whose import relation has a cycle reachable from the main file never ends normally and "
-          "ends with error 63 when nothing else fails; A-B-C maps to A/B/C.zn; a method called through an import finds its home "
-          "module's methods and types. The model is the repaired algorithm (fixes/C15-1.patch, C15-2.patch); it is tied to the "
-          "code on every run by executing ALL digraphs on <=3 (quick) / <=4 (thorough) modules plus random larger graphs as "
-          "directories of generated .zn files."),
+          "(ALL finite digraphs, any map iteration order, the recursion's fuel proved sufficient); in every run that ends normally "
+          "each module's program ends at most once and a module's own statements start only after every module it imports has "
+          "finished; a registered name is never executed again and a failing import aborts the importer (all outcomes); an import "
+          "declares exactly the exported (or the listed and exported) names as constants carrying their home module, nothing else "
+          "changes, assignment to them is error 44; a missing module is error 60 and a missing library error 64; a run whose "
+          "import relation has a cycle reachable from the main file never ends normally and the import closing a cycle is answered "
+          "with error 63; A-B-C maps to A/B/C.zn; a method called through an import runs on a frame of its home module and finds "
+          "that module's methods and types. The model is the repaired algorithm (fixes/C15-1.patch, C15-2.patch); it is tied to "
+          "the code on every run by executing ALL digraphs on <=3 (quick) / <=4 (thorough, modulo renaming) modules plus random "
+          "larger graphs as directories of generated .zn files."),
     note=TB + ("module sources are abstracted to imports / method and type definitions / marker, call, probe, assignment, "
-               "declaration and object statements; OS path cleaning (empty, '.', '..', '/' inside a name segment) and global names "
-               "used as method names are outside the model; selective import of a name that is not exported is silently ignored by "
-               "the code and is not judged; importing a module twice in ONE file redeclares its names (error 43) and is mirrored."),
+               "declaration and object statements; ghost events EStart/EDone in the model's trace are used only to state theorems; "
+               "OS path cleaning (empty, '.', '..', '/' inside a name segment) and global names used as method names are outside "
+               "the model; selective import of a name that is not exported is silently ignored by the code and is not judged; "
+               "importing a module twice in ONE file redeclares its names (error 43) and is mirrored. Partial: termination of "
+               "module loading (a fuel bound for run_main) is not proved, theorems about whole runs speak of runs that end "
+               "normally (result Ok) or are stated per import step; 'exactly error 63' is proved for the import that closes a "
+               "cycle, the whole-run theorem says the run never ends normally."),
     technique="Coq proof (induction over fuel with graph/visited-set invariants) + model/implementation correspondence by vm_compute",
     design="5/C15")
 
@@ -294,8 +300,8 @@ def random_case(rng, kinds):
             if m["cls"] and idx + 1 < len(own) and rng.random() < 0.4:
                 body.append(["newcall", "物%d" % mk.new(), m["cls"][0], "报告"])   # the type's method only calls the LAST method
                 feature.append("home-type")
-            if visible_f and rng.random() < 0.4:
-                body.append(["call", rng.choice(visible_f)])
+            if [x for x in visible_f if x not in own] and rng.random() < 0.4:
+                body.append(["call", rng.choice([x for x in visible_f if x not in own])])   # (an own name would shadow it: recursion)
             if rng.random() < 0.3:
                 body.append(["mark", mk.new()])
             defs.append({"fun": f, "body": body})
@@ -330,6 +336,16 @@ def random_case(rng, kinds):
                 body.append(["call", rng.choice(own)])
             else:
                 body.append(["mark", mk.new()])
+        if erry and rng.random() < 0.6:
+            cand = []
+            if visible_f or visible_c or visible_f_lib:
+                cand.append(["assign", rng.choice(visible_f + visible_c + visible_f_lib)])     # read-only: error 44
+            if hidden:
+                cand.append([rng.choice(["ref", "call"]), rng.choice(hidden)])                # not imported: error 42
+            cand.append(["call", "无此法"])                                                    # nowhere defined: error 42
+            st = rng.choice(cand)
+            feature.append({"assign": "assign-imported"}.get(st[0], "use-hidden"))
+            body.insert(rng.randrange(1, len(body) + 1), st)
         body.append(["mark", mk.new()])
         files[m["rel"]] = {"imports": imports, "defs": defs, "body": body}
     case = {"kind": "random", "root": rng.choice(["", "", "根", "根/内"]), "main": mods[0]["rel"], "files": files,
@@ -429,7 +445,12 @@ def run(chk, replay=None):
 
     tmproot = tempfile.mkdtemp(prefix="znc15_")
     try:
-        outs = core.harness("c15", "run", [harness_input(c, tmproot) for c in cases], batch_timeout=1200)
+        outs = core.harness("c15", "run", [harness_input(c, tmproot) for c in cases], timeout_ms=30000, batch_timeout=1800)
+        # generated programs have no loops and no recursion: a time-out is re-examined alone with a long limit, so that
+        # a loaded machine cannot raise an alarm
+        for k, o in enumerate(outs):
+            if o.get("hang"):
+                outs[k] = core.harness("c15", "run", [harness_input(cases[k], tmproot)], timeout_ms=300000, batch_timeout=400)[0]
     finally:
         shutil.rmtree(tmproot, ignore_errors=True)
     model = core.coq_run_cases("c15", IMPORTS, RUN, [case_term(c) for c in cases], shard=250, timeout=1200)
